@@ -166,15 +166,31 @@ Section Model.
     | NotFound | FetchFails => acc
     end.
 
+  (* the body of fetchMissing once it has decided to ask the sources *)
+  Definition miss_entry (s : state) (now : Z) (outs : list fetch_outcome) : entry :=
+    let '(last, prov) := fold_left fetch_fold outs ((-1)%Z, None) in
+    Entry prov (match prov with None => Some (now + ttl)%Z | Some _ => None end)
+          last (st_seq s) (st_seq s) false.
+
+  Definition miss (now : Z) (pid : N) (outs : list fetch_outcome) (s : state) : state * result :=
+    let e := miss_entry s now outs in
+    (finish (st_seq s) (<[pid := e]> (st_write s)) (<[pid := e_prov e]> (st_ru s)) (st_rm s),
+     RGet (e_prov e) (length outs)).
+
   Definition get (now : Z) (pid : N) (outs : list fetch_outcome) (s : state) : state * result :=
     match view s pid with
     | Some v => (s, RGet v 0)                 (* hit, positive or negative *)
-    | None =>
-      let '(last, prov) := fold_left fetch_fold outs ((-1)%Z, None) in
-      let e := Entry prov (match prov with None => Some (now + ttl)%Z | Some _ => None end)
-                     last (st_seq s) (st_seq s) false in
-      let w := <[pid := e]> (st_write s) in
-      (finish (st_seq s) w (<[pid := prov]> (st_ru s)) (st_rm s), RGet prov (length outs))
+    | None => miss now pid outs s
+    end.
+
+  (* fetchMissing as a concurrent caller meets it (C07): the caller missed in the snapshot
+     it had loaded, took the write slot, and now looks again: an entry stored meanwhile and
+     present in the current snapshot is returned; otherwise the sources are asked, even if
+     the current snapshot holds a stale negative marker for the provider *)
+  Definition fetch_missing (now : Z) (pid : N) (outs : list fetch_outcome) (s : state) : state * result :=
+    match st_write s !! pid, view s pid with
+    | Some _, Some v => (s, RGet v 0)
+    | _, _ => miss now pid outs s
     end.
 
   Definition step (s : state) (o : op) : state * result :=
